@@ -213,7 +213,7 @@ def cpp(n):
     if k == "defer":
         return "unifex::defer([&w]() { w.call(%d, {}); return %s; })" % (i, c[0])
     if k == "let_value_with":
-        return "unifex::let_value_with([&w]() { return Val(&w, %d); }, [&w](Val&) { w.call(%d, {}); return %s; })" % (i, i, c[0])
+        return "unifex::let_value_with([&w]() { return Val(&w, %d); }, [&w](Val&) { return %s; })" % (i, c[0])
     if k == "variant":
         return "make_variant(%s, [&w]() { return %s; }, [&w]() { return %s; })" % ("true" if n.arg == 1 else "false", c[0], c[1])
     if k == "allocate":
